@@ -1,8 +1,8 @@
 (* C08 — minimum-run filter removes exactly the short bursts.
    Statements only; every proof is `exact <lemma>`.  All structural, no axioms. *)
-From Coq Require Import List Arith Bool.
+From Coq Require Import List Arith Bool ZArith.
 Import ListNotations.
-From ByC Require Import Model.Runs Proofs.Runs Proofs.RunsCode.
+From ByC Require Import Base.Result Model.Runs Proofs.Runs Proofs.RunsCode Model.TableRuns Proofs.TableRuns.
 
 Theorem C08_same_length : forall n l, length (minrun n l) = length l.
 Proof. exact minrun_length. Qed.
@@ -64,3 +64,22 @@ Theorem C08_pairs_are_the_maximal_runs : forall l a b,
   In (a, b) (pairs (flatnonzero 0 (diff_pad false l))) <-> maximal_run l a b.
 Proof. exact pairs_maximal_runs. Qed.
 Print Assumptions C08_pairs_are_the_maximal_runs.
+
+(* the correspondence entry point (Model/TableRuns.v: numpy-array check, early return on an empty
+   array, range check of min_n_cycles) is the run filter on the property's domain *)
+Theorem C08_entry_point_is_the_filter : forall l n, (0 <= n)%Z ->
+  check_min_burst_cycles NdArray l n = Ok (minrun (Z.to_nat n) l).
+Proof. exact check_min_valid. Qed.
+Print Assumptions C08_entry_point_is_the_filter.
+
+(* outside the domain (pinned by the model only): rejected exactly when the argument is not an
+   array, or the array is non-empty and min_n_cycles is negative *)
+Theorem C08_entry_point_rejections : forall k l n,
+  (exists e, check_min_burst_cycles k l n = Err e) <-> (k = PyList \/ (l <> [] /\ (n < 0)%Z)).
+Proof. exact check_min_err. Qed.
+Print Assumptions C08_entry_point_rejections.
+
+Theorem C08_entry_point_code_shaped_equal : forall k l n,
+  check_min_burst_cycles_code k l n = check_min_burst_cycles k l n.
+Proof. exact check_min_code_eq. Qed.
+Print Assumptions C08_entry_point_code_shaped_equal.
